@@ -165,7 +165,7 @@ fn pre_for(site: Site, pos: usize) -> Vec<Pre> {
 
 pub fn run(ctx: &Ctx) -> i32 {
     let mut report = ctx.report("C20", "exploration");
-    report.rule = "all 256 result codes x 12 abort sites {read_card, begin (reservation), commit (partial reversal), cancel (pre-auth reversal), configure: system info / set terminal id / initialization / reversal of a dangling pre-authorisation / end-of-day, end-of-day inside commit and inside cancel, reversal of a dangling pre-authorisation inside commit} x position of the abort in the reply script {first reply, after 1, 2, 3 intermediate statuses, after a status information (for a reservation: one already carrying a receipt number)}. Oracle: the call fails and the error identifies c (ZVTError::Aborted(c) in the chain, or the text contains the specification's message for c from an independently typed table, or c as a hex/decimal token); exactly three translations: read_card+6C -> NoCardPresented, reservation+FC -> NeedsPinEntry, end-of-day+A0 -> tolerated (the caller's own result stands). Duplicate-free enumeration; non-trivial = every case.".into();
+    report.rule = "all 256 result codes x 12 abort sites {read_card, begin (reservation), commit (partial reversal), cancel (pre-auth reversal), configure: system info / set terminal id / initialization / reversal of a dangling pre-authorisation / end-of-day, end-of-day inside commit and inside cancel, reversal of a dangling pre-authorisation inside commit} x position of the abort in the reply script {first reply, after 1, 2, 3 intermediate statuses, after a status information (for a reservation: one already carrying a receipt number)}; and every (code, site) again with a connection fault (close / garbage) at the acknowledgement of the first attempt of that exchange, so that the abort answers the client's retry. Oracle: the call fails and the error identifies c (ZVTError::Aborted(c) in the chain, or the text contains the specification's message for c from an independently typed table, or c as a hex/decimal token); exactly three translations: read_card+6C -> NoCardPresented, reservation+FC -> NeedsPinEntry, end-of-day+A0 -> tolerated (the caller's own result stands). Duplicate-free enumeration; non-trivial = every case.".into();
     report.exhaustive = Some(true);
     report.assumptions = vec!["the pending query is answered by the terminal with an abort-shaped packet by protocol design (2.10.1) and is not an abort site; aborts during the handshake are connection failures (C09)".into()];
     assert_eq!(SPEC_MESSAGES.len(), 79);
@@ -181,7 +181,11 @@ pub fn run(ctx: &Ctx) -> i32 {
                     if k % threads != shard {
                         continue;
                     }
-                    one(r, &schema, site, code, pos);
+                    one(r, &schema, site, code, pos, None);
+                    if pos == 0 {
+                        one(r, &schema, site, code, pos, Some(FaultKind::Close));
+                        one(r, &schema, site, code, pos, Some(FaultKind::Garbage));
+                    }
                 }
             }
         }
@@ -191,7 +195,7 @@ pub fn run(ctx: &Ctx) -> i32 {
     report.finish()
 }
 
-fn one(r: &mut Report, schema: &Arc<refcodec::layout::Schema>, site: Site, code: u8, pos: usize) {
+fn one(r: &mut Report, schema: &Arc<refcodec::layout::Schema>, site: Site, code: u8, pos: usize, prior_fault: Option<FaultKind>) {
     let mut sc = Scenario::default();
     let pre = pre_for(site, pos);
     if pre.is_empty() && pos != 0 {
@@ -228,8 +232,35 @@ fn one(r: &mut Report, schema: &Arc<refcodec::layout::Schema>, site: Site, code:
     if matches!(site, Site::ConfigureSetTerminalId) {
         // Feig::new (call 1) also tries to set the terminal id: let it pass
     }
+    if let Some(kind) = prior_fault {
+        // the first attempt of the exchange suffers a connection fault at its acknowledgement; the retry is aborted.
+        // every exchange plan of the call is queued twice so that the retry finds the same script.
+        let cmd = match site {
+            Site::ReadCard => Cmd::ReadCard,
+            Site::Begin => Cmd::Reservation,
+            Site::Commit => Cmd::PartialReversal,
+            Site::Cancel | Site::ConfigureDanglingReversal | Site::CommitDanglingReversal => Cmd::PreAuthReversal,
+            Site::ConfigureSystemInfo => Cmd::SystemInfo,
+            Site::ConfigureSetTerminalId => Cmd::SetTerminalId,
+            Site::ConfigureInitialization => Cmd::Initialization,
+            Site::ConfigureEndOfDay | Site::CommitEndOfDay | Site::CancelEndOfDay => Cmd::EndOfDay,
+        };
+        if let Some(q) = sc.plan.ex.get_mut(&(call_idx, cmd)) {
+            if let Some(last) = q.back().cloned() {
+                if cmd == Cmd::SystemInfo {
+                    // the re-connection's handshake runs a system-info exchange of its own in between
+                    q.push_back(ExPlan::default());
+                }
+                q.push_back(last);
+            }
+        }
+        sc.plan.faults.push(FaultSpec { call: call_idx, at: At::PointOnce(cmd, 0), kind });
+    }
     let tr = run_scenario(&sc, schema);
     r.case_enumerated(true);
+    if prior_fault.is_some() {
+        r.count("cases_with_a_connection_fault_before_the_abort", 1);
+    }
     let Some(ct) = tr.calls.iter().find(|c| c.index == call_idx) else {
         r.inconclusive(&format!("the call under test was not executed for {site:?}"));
         return;
@@ -247,6 +278,7 @@ fn one(r: &mut Report, schema: &Arc<refcodec::layout::Schema>, site: Site, code:
         c["site"] = json!(format!("{site:?}"));
         c["code"] = json!(format!("{code:02x}"));
         c["position"] = json!(pos);
+        c["prior_fault"] = json!(prior_fault.map(|k| format!("{k:?}")));
         c
     };
     let eod_site = matches!(site, Site::ConfigureEndOfDay | Site::CommitEndOfDay | Site::CancelEndOfDay);
